@@ -303,7 +303,9 @@ def check(case, ctx):
             return fails
     ctx.count("numeric_points", K)
     rowsA, rowsB = Rows.from_evals(evA), Rows.from_evals(evB)
-    d = diff_rows(rowsA, rowsB, rtol=1e-8, atol=1e-9, upto_scale=True)
+    # the decision vector is transported between the two NLPs by least squares (~1e-9 relative), which single shooting amplifies
+    # through the propagated states: directions agree to 1e-6
+    d = diff_rows(rowsA, rowsB, rtol=1e-6, atol=1e-8, upto_scale=True)
     if any(d.values()):
         fails.append(Fail("feasible-set", feats, summarize_diff(d)))
         return fails
@@ -326,7 +328,7 @@ def check(case, ctx):
             el = lists[0][j][2]
             vec = np.array([lists[i][j][1] for i in range(K)]) / scv[el]
             (exp.add_eq if lists[0][j][0] == "e" else exp.add_ineq)(vec)
-        _, missing = subtract_rows(rowsA, exp, rtol=1e-8, atol=1e-9)
+        _, missing = subtract_rows(rowsA, exp, rtol=1e-6, atol=1e-8)      # (same transport tolerance as above)
         ctx.count("declared_instances", exp.count())
         if missing.count():
             f = dict(feats, **c04.con_features(c, spA))
